@@ -558,6 +558,7 @@ def _dim_args():
     A += [("l1,2,3", [1, 2, 3]), ("l1,2,3", np.array([1, 2, 3])), ("tl0,1/2,1", ([0.0, 0.5, 1.0],)), ("tl5,6", (np.array([5.0, 6.0]),))]
     A += [("d0", np.array(2.0)), ("d2", np.zeros((2, 2))), ("d2", [[1.0, 2.0], [3.0, 4.0]]), ("td2", (np.zeros((2, 2)),)), ("d3", np.zeros((1, 2, 3)))]
     A += [("o", 2.0), ("o", "x"), ("o", np.float64(3.0)), ("to", (2.5,)), ("o", {"a": 1})]
+    A += [("i1", True), ("i0", False), ("o", np.True_), ("ti1", (True,))]      # a Python bool is an int, numpy's is not
     return A
 
 
@@ -603,7 +604,7 @@ def part_ctor(ctx, cuqi, thorough):
     # --- Image2D
     shapes = [(2, 3), (3, 2), (1, 4), (4, 1), (1, 1), (2, 3, 4), (2, 3, 1), (1, 2, 3), (2, 1, 1), (6,), (1,), (), (0, 3), (2, 2, 2, 2)]
     for sh in shapes:
-        for order in ("C", "F", "X"):
+        for order in (("C", "F", "X", "A", "K", "a", "c", "f", "k", "CC") if sh in ((2, 3), (3, 2)) else ("C", "F", "X")):
             for vis in (False, True):
                 d = int(np.prod(sh)) if len(sh) else 1
                 shs = ",".join(str(k) for k in sh) if len(sh) else "_"
@@ -617,7 +618,8 @@ def part_ctor(ctx, cuqi, thorough):
                     meta.append(("img", sh, order, vis, "fun2par", X))
     # --- Discrete
     for tok, val in [(f"i{n}", n) for n in (-2, 0, 1, 2, 3, 5)] + [("i4", np.int64(4)), ("s0", []), ("s1", ["n0"]), ("s3", ["n0", "n1", "n2"]),
-                                                                  ("x", ["a", 1]), ("x", [1.0]), ("o", 2.0), ("o", "ab"), ("o", None), ("o", ("a", "b"))]:
+                                                                  ("x", ["a", 1]), ("x", [1.0]), ("o", 2.0), ("o", "ab"), ("o", None), ("o", ("a", "b")),
+                                                                  ("i1", True), ("i0", False)]:
         lines.append(f"ctordisc {tok}")
         meta.append(("disc", tok, val))
     # --- default geometries
@@ -625,9 +627,41 @@ def part_ctor(ctx, cuqi, thorough):
         lines.append("defgeom S " + ",".join(str(k) for k in sh)); meta.append(("def", "S", sh))
     for sh in [(), (4,), (0,), (1,)]:
         lines.append("defgeom A " + (",".join(str(k) for k in sh) if sh else "_")); meta.append(("def", "A", sh))
+    # --- variables of geometries whose variables were never set
+    for nm, mk in [("Continuous1D(None)", lambda: Continuous1D(None)), ("Continuous1D(0)", lambda: Continuous1D(0)), ("Continuous1D(1)", lambda: Continuous1D(1)),
+                   ("Continuous1D(3)", lambda: Continuous1D(3)), ("Continuous2D((2,2))", lambda: Continuous2D((2, 2))), ("Image2D((2,1))", lambda: Image2D((2, 1))),
+                   ("Default1D(5)", lambda: _DefaultGeometry1D(5)), ("Default2D((2,3))", lambda: _DefaultGeometry2D((2, 3)))]:
+        with quiet():
+            o = mk()
+        pd = call(lambda: o.par_dim)
+        lines.append(f"ctorvars {'None' if pd is None else int(pd)}"); meta.append(("vars", nm, o))
+    # --- n_steps = 0 through the `map` op (now run on the object model)
+    from cuqi.geometry import StepExpansion
+    for op, X in [("fun2par", ints_(rng, (4,))), ("fun2par", ints_(rng, (4, 2))), ("fun2par", ints_(rng, (5,))), ("par2fun", np.zeros(0)), ("par2fun", ints_(rng, (1,)))]:
+        lines.append(f"map step:0,1,2,3:-:0:mean {op} {enc(X)}"); meta.append(("s0", op, X))
     outs = yield lines
 
     for mt, out in zip(meta, outs):
+        if mt[0] == "vars":
+            _, nm, o = mt
+            ctx.case("ctor-variables", {"geometry": nm})
+            v = call(lambda: o.variables)
+            impl = "err" if isinstance(v, BaseException) else (",".join(v) if len(v) else "_")
+            if impl != out:
+                ctx.disagree("ctor:variables:" + nm.split("(")[0], {"geometry": nm}, out[:80], impl[:80], "generated variable names differ from the model")
+                pd = call(lambda: o.par_dim)
+                if not isinstance(v, BaseException) and pd is not None and len(v) != pd:
+                    ctx.fail("ctor:variables:" + nm.split("(")[0], {"geometry": nm}, f"{pd} names", impl[:80], "number of variables is not par_dim")
+            continue
+        if mt[0] == "s0":
+            _, op, X = mt
+            ctx.case("step-nsteps0", {"op": op, "input_shape": list(X.shape)})
+            with quiet():
+                g0 = StepExpansion(np.arange(4.0), n_steps=0)
+            m, im = parse_arr(out), canon(call(getattr(g0, op), X.copy()))
+            if im != "raise" and m != im and not (not isinstance(m, str) and not isinstance(im, str) and m[0] == im[0] and list(m[1]) == list(im[1])):
+                ctx.disagree("StepExpansion:nsteps0:" + op, {"op": op, "input_shape": list(X.shape)}, short(out), short(im), "n_steps = 0 branch differs from the model")
+            continue
         if mt[0] == "1d":
             _, tok, val, how = mt
             stat["ctor1d"] += 1
